@@ -1,7 +1,7 @@
 import CprocVerif.Model.Scan
 import CprocVerif.Model.PP
 import CprocVerif.Spec.MacroRef
-import CprocVerif.Lemmas.PPFunSim6
+import CprocVerif.Lemmas.PPPre8
 
 /-! Line-protocol driver for property C12 (model of the macro machinery of `pp.c`, and the
 6.10.3 reference).
@@ -10,7 +10,9 @@ One output line per input line:
 * `pp <hex>`   → the model's `next()` stream for the source text: `<tok> … [!<error class>] [@<events>] [%<class>]`
                  `<class>`: the unit is in the class of `CprocVerif.C12.function_like_correct_init` — its
                  leading directive lines, run through the model, leave a table `ms0` with `tblOKb ms0`, and
-                 the rest of the text satisfies `textOKb ms0` — `F` when `ms0` has a function-like macro, else `O`
+                 the rest of the text satisfies `textOKb ms0` — `F` when `ms0` has a function-like macro, else `O`;
+                 `P` = the text satisfies `textPb ms0` only (arguments that name object-like macros): the
+                 class of `CprocVerif.C12.function_like_args_correct_init`
                  `<tok>` = `<kind number>:<lit hex | ->:<space 0|1>`
 * `ppnl <hex>` → the same with `PPNEWLINE` set (what `-E` does)
 * `ref <hex>`  → the reference (`Spec/MacroRef.lean`): `<tok> … [!<error class>] [@<flags>]`, keywords converted
@@ -101,9 +103,10 @@ def classOf (raw : List PP.Tok) : String :=
   let sp := splitDirs raw.length raw
   match PP.exec FUEL .next (PP.St.init sp.1 false) with
   | .ok st1 =>
-    if st1.tok.kind = .TEOF && st1.ctx.isEmpty && !st1.prag && PP.tblOKb st1.macros && st1.macros.all (fun m => !m.hide) &&
-       PP.textOKb st1.macros (sp.2.length + 1) sp.2 then
-      (if st1.macros.any (·.func) then " %F" else " %O")
+    if st1.tok.kind = .TEOF && st1.ctx.isEmpty && !st1.prag && PP.tblOKb st1.macros && st1.macros.all (fun m => !m.hide) then
+      if PP.textOKb st1.macros (sp.2.length + 1) sp.2 then (if st1.macros.any (·.func) then " %F" else " %O")
+      else if PP.textPb st1.macros (sp.2.length + 1) sp.2 then " %P"
+      else ""
     else ""
   | .error _ => ""
 
